@@ -250,3 +250,51 @@ def spec_ops2(tr, lhs, rhs, out, req, lts):
     amp = "&" if tr.endswith("Assign") else ""
     return (f"impl{lts} vstd::std_specs::ops::{tr}SpecImpl{targ} for {lhs} {{ open spec fn obeys_{sn}_spec() -> bool {{ false }} "
             f"open spec fn {sn}_req({params}) -> bool {{ {req} }} open spec fn {sn}_spec({params}) -> {amp}{out} {{ arbitrary() }} }}\n")
+
+
+FP_STD = ["recip", "sqrt", "cbrt", "exp", "exp2", "exp_m1", "ln", "log2", "log10", "ln_1p", "sin", "cos", "tan", "asin", "acos", "atan",
+          "sinh", "cosh", "tanh", "asinh", "acosh", "atanh"]
+
+
+def generate_fp():
+    """model of the primitive float type for the plain-float instance of the interface (unit F64):
+    the std functions are total; each returns 'the' real function (machine arithmetic treated as mathematical)"""
+    o = []
+    w = o.append
+    w("\n// ===================== primitive float model Fp (unit F64) =====================\n")
+    w("#[verifier::external_body] pub struct Fp { v: f64 }\n")
+    w("impl View for Fp { type V = real; uninterp spec fn view(&self) -> real; }\n")
+    w("impl Clone for Fp { #[verifier::external_body] fn clone(&self) -> (r: Fp) ensures r@ == self@ { unimplemented!() } }\nimpl Copy for Fp {}\n")
+    for tr, sym in [("Add", "+"), ("Sub", "-"), ("Mul", "*"), ("Div", "/")]:
+        m = tr.lower()
+        req = "rhs@ != 0real" if tr == "Div" else "true"
+        for lhs, rhs, lts in [("Fp", "Fp", ""), ("Fp", "&'a Fp", "<'a>"), ("&'a Fp", "Fp", "<'a>"), ("&'a Fp", "&'b Fp", "<'a, 'b>")]:
+            w(spec_ops2(tr, lhs, rhs, "Fp", req, lts))
+            w(f"impl{lts} core::ops::{tr}<{rhs}> for {lhs} {{ type Output = Fp; #[verifier::external_body] fn {m}(self, rhs: {rhs}) -> (r: Fp) ensures r@ == self@ {sym} rhs@ {{ unimplemented!() }} }}\n")
+    w(spec_ops2("Neg", "Fp", "", "Fp", "true", ""))
+    w("impl core::ops::Neg for Fp { type Output = Fp; #[verifier::external_body] fn neg(self) -> (r: Fp) ensures r@ == -self@ { unimplemented!() } }\n")
+    w("""
+impl PartialEq for Fp { #[verifier::external_body] fn eq(&self, o: &Fp) -> (r: bool) ensures r == (self@ == o@) { unimplemented!() } }
+impl PartialOrd for Fp {
+    #[verifier::external_body] fn partial_cmp(&self, o: &Fp) -> (r: Option<core::cmp::Ordering>) { unimplemented!() }
+    #[verifier::external_body] fn lt(&self, o: &Fp) -> (r: bool) ensures r == (self@ < o@) { unimplemented!() }
+    #[verifier::external_body] fn le(&self, o: &Fp) -> (r: bool) ensures r == (self@ <= o@) { unimplemented!() }
+    #[verifier::external_body] fn gt(&self, o: &Fp) -> (r: bool) ensures r == (self@ > o@) { unimplemented!() }
+    #[verifier::external_body] fn ge(&self, o: &Fp) -> (r: bool) ensures r == (self@ >= o@) { unimplemented!() }
+}
+""")
+    w("impl Fp {\n")
+    w("  #[verifier::external_body] pub fn lit(Ghost(x): Ghost<real>) -> (r: Fp) ensures r@ == x { unimplemented!() }\n")
+    w("  #[verifier::external_body] pub fn epsilon() -> (r: Fp) ensures r@ == eps_r(), r@ > 0real { unimplemented!() }\n")
+    w("  #[verifier::external_body] pub fn abs(self) -> (r: Fp) ensures r@ == abs_r(self@) { unimplemented!() }\n")
+    rname = {"exp_m1": "expm1", "ln_1p": "ln1p"}
+    for m in FP_STD:
+        w(f"  #[verifier::external_body] pub fn std_{m}(x: Fp) -> (r: Fp) ensures r@ == {rname.get(m, m)}_r(x@) {{ unimplemented!() }}\n")
+    w("  #[verifier::external_body] pub fn std_sin_cos(x: Fp) -> (r: (Fp, Fp)) ensures r.0@ == sin_r(x@), r.1@ == cos_r(x@) { unimplemented!() }\n")
+    w("  #[verifier::external_body] pub fn std_mul_add(x: Fp, a: Fp, b: Fp) -> (r: Fp) ensures r@ == (x@ * a@) + b@ { unimplemented!() }\n")
+    w("  #[verifier::external_body] pub fn std_powi(x: Fp, n: i32) -> (r: Fp) ensures r@ == powi_r(x@, n as int) { unimplemented!() }\n")
+    w("  #[verifier::external_body] pub fn std_powf(x: Fp, n: Fp) -> (r: Fp) ensures r@ == powf_r(x@, n@) { unimplemented!() }\n")
+    w("  #[verifier::external_body] pub fn std_log(x: Fp, b: Fp) -> (r: Fp) ensures r@ == log_r(x@, b@) { unimplemented!() }\n")
+    w("  #[verifier::external_body] pub fn std_atan2(x: Fp, o: Fp) -> (r: Fp) ensures r@ == atan2_r(x@, o@) { unimplemented!() }\n")
+    w("}\n")
+    return "".join(o)
